@@ -9,7 +9,8 @@ import CssVerif.Props.C07
 Property theorems only (helpers: `Lemmas/EncLadder.lean`, `Lemmas/EncEscape.lean`, `Lemmas/EncSheet.lean`).
 Models: `Model/EncLadder.lean` (`_readUrl`, `_setHref`, `_resolveImport`, `_setCssTextWithEncodingOverride`,
 `parseString`, `parseUrl`), `Model/EncSheet.lean` (`encoding`, `insertRule`, `deleteRule`), `Model/EncEscape.lean`
-(`_escapecss`, the tokenizer's `unicodesub`), tied to the source by the correspondences of `tools/harness/c08.py`.
+(`_escapecss`, the tokenizer's `unicodesub`), `Model/EncTok.lean` with C05's tokenizer model `Model/Tok.lean` over the
+regenerated production table (T8.4c), tied to the source by the correspondences of `tools/harness/c08.py` / `c08_tok.py`.
 The codecs of the Python runtime, the fetcher and the sheet parser are parameters (`World`), so every theorem below
 holds for all of them.
 -/
